@@ -221,6 +221,17 @@ def canon_params(summary, skip_self=False):
     return m
 
 
+def added_param_defaults(s, sp):
+    """{('param', name): default} for the trailing parameters (with constant defaults) that function summary ``s`` has beyond those of the
+    specification summary ``sp``."""
+    extra = {}
+    if len(s.params) > len(sp.params) and all(p_[2] == q_[2] for p_, q_ in zip(s.params, sp.params)):
+        for p_ in s.params[len(sp.params):]:
+            if p_[1] is not None and is_const(strip(p_[1])) and p_[2] in ("pos", "kwonly"):
+                extra[("param", p_[0])] = strip(p_[1])
+    return extra
+
+
 def exc_class(term):
     t = strip(term)
     if head(t) == "raise":
@@ -677,6 +688,11 @@ def compare_function(r, rule, qual, spec_src, what, fname=None, eq=None, spec_mo
     code, spec = s.ret, sp.ret
     if close:
         code, spec = close_loops(s, code), close_loops(sp, spec)
+    # the specification speaks about calls with its own parameters: a parameter the function gained later (trailing, with a constant default)
+    # is compared at that default - f(a, b) still has to be what it was
+    extra = added_param_defaults(s, sp)
+    if extra:
+        code = subst(code, extra)
     code = subst(code, canon_params(s))
     spec = subst(spec, canon_params(sp))
     eq = eq or Equiv(rewrites=std_rewrites())
@@ -1098,6 +1114,9 @@ def small_rewrites(t):
             if n in ("builtins.min", "builtins.max") and len(t[2]) == 2 and not t[3]:
                 a, b = t[2]
                 return ("ite", ("cmp", "<=", a, b), a, b) if n.endswith("min") else ("ite", ("cmp", ">=", a, b), a, b)
+            if n.startswith("rapidfuzz.distance.") and n.endswith(".distance") and any(k in ("score_cutoff", "processor", "weights", "pad") and is_const(strip(v), None) for k, v in t[3]):
+                # rapidfuzz: score_cutoff=None / processor=None / weights=None are the defaults (no cut-off, no preprocessing, unit weights)
+                return small_rewrites(("call", t[1], t[2], tuple((k, v) for k, v in t[3] if not (k in ("score_cutoff", "processor", "weights") and is_const(strip(v), None)))))
             if n in ("numpy.add", "numpy.subtract", "numpy.multiply") and len(t[2]) == 2 and all(k == "out" for k, _ in t[3]):
                 # np.add(a, b) / np.add(a, b, out=x) has the value a + b (where it is stored is the evaluator's business: it rebinds x)
                 return ("bin", {"numpy.add": "+", "numpy.subtract": "-", "numpy.multiply": "*"}[n], t[2][0], t[2][1])
